@@ -103,6 +103,10 @@ func handleLRange(params internal.HandlerFuncParams) ([]byte, error) {
 	if start < 0 {
 		start = len(list) + start
 	}
+	// A start that is still before the head of the list is clamped to the head.
+	if start < 0 {
+		start = 0
+	}
 
 	end, err := strconv.Atoi(params.Command[3])
 	if err != nil {
@@ -110,14 +114,14 @@ func handleLRange(params internal.HandlerFuncParams) ([]byte, error) {
 	}
 	// If end is < 0, calculate it from the end of the list
 	if end < 0 {
-		end = len(list) - end
+		end = len(list) + end
 	}
-	// If end is greater than list length, set it to the last element of the list
-	if end > len(list) {
+	// If end is beyond the last element, set it to the last element of the list
+	if end > len(list)-1 {
 		end = len(list) - 1
 	}
 
-	if start > end || start > len(list) {
+	if start > end || start > len(list)-1 {
 		return []byte("*0\r\n"), nil
 	}
 
